@@ -103,12 +103,14 @@ type execReq struct {
 	Fund   string   `json:"fund"`
 	Txs    []string `json:"txs"`
 	Warm   []string `json:"warm,omitempty"` // another block executed first (unrelated activity)
+	PreNode bool    `json:"pre_node,omitempty"` // the process first ran and closed another node (other data directory)
 	Repeat int      `json:"repeat"`
 }
 
 type digest struct {
 	Receipts string `json:"receipts"`
 	Block    string `json:"block"`
+	LocalDB  string `json:"local_db_after_connected_blocks"` // digest of the whole blockchain DB after genesis + funding block
 	State    string `json:"state_root"`
 	TxHash   string `json:"tx_root"`
 	KV       string `json:"state_kv"`
@@ -177,9 +179,26 @@ func execOnce(env *execenv.Env, txh []string) (*digest, error) {
 	return dg, nil
 }
 
+func c13Cfg(c *types.Config) { c.Exec.EnableStat = true }
+
+func dumpDigest(env *execenv.Env) string {
+	h := sha256.New()
+	n := 0
+	it := env.N.Chain.GetDB().Iterator(nil, types.EmptyValue, false)
+	for it.Rewind(); it.Valid(); it.Next() {
+		h.Write(it.Key())
+		h.Write([]byte{0})
+		h.Write(it.Value())
+		h.Write([]byte{1})
+		n++
+	}
+	it.Close()
+	return fmt.Sprintf("%x/%d", h.Sum(nil)[:10], n)
+}
+
 func openEnv(fund string) (*execenv.Env, error) {
 	dir := filepath.Join(os.Getenv("VERIF_TMP"), "n")
-	o := node.Options{DataDir: dir}
+	o := node.Options{DataDir: dir, Cfg: c13Cfg}
 	cfg := node.NewConfig(o)
 	vexec.Register(cfg)
 	n := node.NewWithConfig(cfg, o)
@@ -225,11 +244,20 @@ func init() {
 		if err := json.Unmarshal(in, &q); err != nil {
 			return nil, err
 		}
+		if os.Getenv("VERIF_C13_PRENODE") != "" {
+			// long-running-process condition: another node (own data directory) was started, used and closed before
+			pre, err := execenv.New(filepath.Join(os.Getenv("VERIF_TMP"), "pre"), func(o *node.Options) { o.Cfg = c13Cfg })
+			if err != nil {
+				return nil, fmt.Errorf("pre-node: %v", err)
+			}
+			pre.Close()
+		}
 		env, err := openEnv(q.Fund)
 		if err != nil {
 			return nil, err
 		}
 		defer env.Close()
+		dbDigest := dumpDigest(env)
 		if len(q.Warm) > 0 {
 			if _, err := execOnce(env, q.Warm); err != nil {
 				return nil, fmt.Errorf("warm-up: %v", err)
@@ -241,6 +269,7 @@ func init() {
 			if err != nil {
 				return nil, err
 			}
+			d.LocalDB = dbDigest
 			out = append(out, d)
 		}
 		return out, nil
@@ -262,6 +291,9 @@ func diffDigest(a, b *digest) (parts []string) {
 	}
 	if a.DetailRc != b.DetailRc {
 		parts = append(parts, "block receipts")
+	}
+	if a.LocalDB != b.LocalDB {
+		parts = append(parts, "local database after connecting genesis + funding block")
 	}
 	if a.Block != b.Block {
 		parts = append(parts, "executed block bytes")
@@ -300,6 +332,7 @@ func run(c *lib.Ctx) {
 		{"fresh-gomaxprocs-3", []string{"GOMAXPROCS=3"}, false, 1},
 		{"warm-process", []string{"GOMAXPROCS=8"}, true, 1},
 		{"repeated-5x", []string{"GOMAXPROCS=8"}, false, 5},
+		{"second-node-in-process", []string{"GOMAXPROCS=8", "VERIF_C13_PRENODE=1"}, false, 1},
 	}
 	lib.Parallel(nBlocks, 4, func(bi int) {
 		if c.Skip(bi) {
